@@ -34,7 +34,7 @@ ANCHORS = [
 ]
 REQUIRED = ["op:add", "op:remove", "op:update", "op:update_rename", "op:register_refused", "op:refused_add_unknown_station", "op:refused_remove_unknown_name", "op:refused_update_unknown_name", "subset_queries",
             "tree:+", "tree:-", "tree:*left", "tree:*right", "tree:scalar_multiple_as_operand", "leaf:dict",
-            "leaf:list", "leaf:str", "leaf:series"]
+            "leaf:list", "leaf:str", "leaf:series", "leaf:tiny_coefficient"]
 BUDGET_S = {"quick": 200, "thorough": 2400}
 
 
@@ -57,6 +57,11 @@ def _tree(rng, ids, depth, obs, stats):
         if form == "list":
             return Current(sub), {s: 1.0 for s in sub}
         d = {s: rng.choice([1, -1, 0.5, 2, 0.25]) for s in sub}
+        if rng.random() < 0.12:
+            # a genuine but tiny coupling coefficient (far below any 'residue' threshold, far above the comparison's 1e-12... no: compared exactly)
+            tiny = rng.choice(sub)
+            d[tiny] = rng.choice([5e-10, -3e-11, 7e-13, 2.5e-7])
+            obs.ev("leaf:tiny_coefficient")
         return (Current(d) if form == "dict" else Current(pd.Series(d))), {k: float(v) for k, v in d.items()}
     op = rng.choice(["+", "-", "*"])
     if op == "*":
@@ -132,7 +137,7 @@ def run_case(case, obs):
             co, lim = model[nm]
             exp = [co.get(s, 0.0) for s in net.station_ids]
             row = cm[i]
-            if np.isnan(row).any() or not np.allclose(row, exp, rtol=0, atol=1e-12):
+            if np.isnan(row).any() or not np.allclose(row, exp, rtol=1e-12, atol=1e-15):
                 obs.violate("matrix_row", f"after {tag}: row {nm} = {row.tolist()} expected {exp}", name=nm, **wit)
                 return False
             if not (mags[i] == lim):
@@ -143,7 +148,7 @@ def run_case(case, obs):
             except Exception as e:
                 obs.violate("constraints_as_df", f"after {tag}: {type(e).__name__}: {e}", **wit)
                 return False
-            if not np.allclose(dfrow, exp, rtol=0, atol=1e-12):
+            if not np.allclose(dfrow, exp, rtol=1e-12, atol=1e-15):
                 obs.violate("constraints_as_df", f"after {tag}: df row {nm} = {dfrow} expected {exp}", **wit)
                 return False
         return True
